@@ -150,10 +150,12 @@ META = {
         "Pyoda.GenAgree.C07N.gen_Cursor_current_eq", "Pyoda.GenAgree.C07N.gen_Cursor_hasMoreCharacters_eq",
         "Pyoda.GenAgree.C07N.gen_Cursor_move_eq", "Pyoda.GenAgree.C07N.gen_Cursor_moveNext_eq",
         "Pyoda.GenAgree.C07N.gen_Cursor_movePrevious_eq", "Pyoda.GenAgree.C07N.gen_Cursor_parseDigits_eq",
-        "Pyoda.GenAgree.C07N.gen_Cursor_parseFraction_eq", "Pyoda.GenAgree.C07N.gen_Cursor_matchText_eq",
-        "Pyoda.GenAgree.C07N.gen_Cursor_getDigit_eq", "Pyoda.GenAgree.C07N.gen_Cursor_remainder_eq",
-        "Pyoda.GenAgree.C07N.gen_Cursor_peekNext_eq", "Pyoda.GenAgree.C07N.gen_StringBuilder_length_eq",
-        "Pyoda.GenAgree.C07N.gen_StringBuilder_getitem_eq", "Pyoda.GenAgree.C07N.gen_StringBuilder_toString_eq",
+        "Pyoda.GenAgree.C07N.gen_Cursor_parseDigits_model", "Pyoda.GenAgree.C07N.gen_Cursor_parseFraction_eq",
+        "Pyoda.GenAgree.C07N.gen_Cursor_parseFraction_model", "Pyoda.GenAgree.C07N.gen_Cursor_matchText_eq",
+        "Pyoda.GenAgree.C07N.gen_Cursor_matchText_rest", "Pyoda.GenAgree.C07N.gen_Cursor_getDigit_eq",
+        "Pyoda.GenAgree.C07N.gen_Cursor_remainder_eq", "Pyoda.GenAgree.C07N.gen_Cursor_peekNext_eq",
+        "Pyoda.GenAgree.C07N.gen_StringBuilder_length_eq", "Pyoda.GenAgree.C07N.gen_StringBuilder_getitem_eq",
+        "Pyoda.GenAgree.C07N.gen_StringBuilder_toString_eq",
     ],
     "trusted_base": [
         "translator tie (tools/py2lean.py; GenAgreeC07N, builder T4): what Python's str operations mean is PyodaGen/TextSupport.lean — a str is the list of its code points, s[i] a character (negative indices from the end, IndexError outside), slices with Python's clamping, f\"{v:0N}\" / f\"{v:0{n}d}\" sign-aware zero padding (ValueError for n < 0), f\"{v:0>{n}}\" fill-right (a negative n = -k reads as sign option + width k), str(int), c.isdigit() as the table of CPython's 808 digit code points, int(c) only for '0'..'9', int(a * math.pow(10.0, k)) as the exact integer a*10^k ONLY where the double computation is exact (0 <= k <= 22, 0 <= a, a*10^k < 2^53) — outside these ranges, and for format widths above INT_MAX, the generated code answers 'outside the modelled domain'; all of it is compared with CPython on every run of the C03 check (tools/py2lean_selftest.py text_selftest: 25 corpus functions, every code point for isdigit, 21 must-refuse programs). The StringBuilder (append, length, item, length setter) and the four cursor attributes are explicit state (PyodaGen/GlueC07N.lean, the StringBuilder operations hand-written from _string_builder.py); the cursor methods themselves are translated",
